@@ -19,6 +19,7 @@ Definition show_obj_ (o : obj) : string :=
   | OInst c d sl sv =>
       show_list (fun x => x) ["""inst"""; show_N c; show_optN d; show_option (show_list show_N) sl; show_kvs sv]
   | OMethod f s => show_list (fun x => x) ["""method"""; show_N f; show_N s]
+  | OCell v => show_list (fun x => x) ["""cell"""; show_N v]
   | OModule d => show_list (fun x => x) ["""module"""; show_N d]
   | OStatic f => show_list (fun x => x) ["""static"""; show_N f]
   | OClassM f => show_list (fun x => x) ["""classm"""; show_N f]
